@@ -1,6 +1,7 @@
 package rules
 
 import (
+	"go/types"
 	"sort"
 	"fmt"
 	"go/token"
@@ -371,36 +372,81 @@ func checkSubjectKeyCoversSnapshotInputs(c *Ctx) {
 		r.Unresolve("C18.5", "inmem.(*Store).watchSnapshot", "not found")
 		return
 	}
-	// fields of each subject type read by the handler (below a type assertion of the request's subject)
-	read := map[string]map[string]bool{}
-	for _, b := range snap.Blocks {
-		for _, in := range b.Instrs {
-			var x ssa.Value
-			var idx int
-			switch v := in.(type) {
-			case *ssa.Field:
-				x, idx = v.X, v.Field
-			case *ssa.FieldAddr:
-				x, idx = v.X, v.Field
-			default:
-				continue
+	n := subjectKeyCoverage(c, "C18.5", pkg, "inmem", []*ssa.Function{snap}, nil)
+	if n < 3 {
+		r.MissingInstance("C18.5", "<subject fields>", fmt.Sprintf("only %d subject fields read by the snapshot handler", n))
+	}
+}
+
+// subjectKeyCoverage: every field of a subscription-subject type (a named type
+// whose name ends in "Subject" or starts with "EventSubject") that one of the
+// snapshot handlers reads is also read by that type's String() method — the
+// key under which the publisher caches and shares snapshots. exempt names
+// field types whose value cannot vary in this build (community edition
+// enterprise metadata).
+func subjectKeyCoverage(c *Ctx, rule, pkgRel, short string, handlers []*ssa.Function, exempt func(*types.Var) string) int {
+	p, r := c.P, c.R
+	isSubject := func(nt *types.Named) bool {
+		return nt != nil && nt.Obj().Pkg() != nil && strings.HasSuffix(nt.Obj().Pkg().Path(), "/"+pkgRel) && (strings.HasSuffix(nt.Obj().Name(), "Subject") || strings.HasPrefix(nt.Obj().Name(), "EventSubject"))
+	}
+	read := map[string]map[string]*types.Var{}
+	where := map[string]*ssa.Function{}
+	for _, h := range handlers {
+		for _, b := range h.Blocks {
+			for _, in := range b.Instrs {
+				var x ssa.Value
+				switch v := in.(type) {
+				case *ssa.Field:
+					x = v.X
+				case *ssa.FieldAddr:
+					x = v.X
+				default:
+					continue
+				}
+				nt := core.NamedOf(x.Type())
+				if !isSubject(nt) {
+					continue
+				}
+				// reads only: a field address that is loaded from (not the target of a store in a literal)
+				if fa, ok := in.(*ssa.FieldAddr); ok {
+					loaded := false
+					if fa.Referrers() != nil {
+						for _, rr := range *fa.Referrers() {
+							if u, ok := rr.(*ssa.UnOp); ok && u.Op == token.MUL {
+								loaded = true
+							}
+							if _, ok := rr.(ssa.CallInstruction); ok {
+								loaded = true // address handed to a method (meta.PartitionOrDefault())
+							}
+							if _, ok := rr.(*ssa.FieldAddr); ok {
+								loaded = true
+							}
+						}
+					}
+					if !loaded {
+						continue
+					}
+				}
+				if read[nt.Obj().Name()] == nil {
+					read[nt.Obj().Name()] = map[string]*types.Var{}
+					where[nt.Obj().Name()] = h
+				}
+				fo := core.FieldObj(in.(ssa.Value))
+				read[nt.Obj().Name()][fo.Name()] = fo
 			}
-			_ = idx
-			nt := core.NamedOf(x.Type())
-			if nt == nil || !strings.HasSuffix(nt.Obj().Name(), "Subject") {
-				continue
-			}
-			if read[nt.Obj().Name()] == nil {
-				read[nt.Obj().Name()] = map[string]bool{}
-			}
-			read[nt.Obj().Name()][core.FieldObj(in.(ssa.Value)).Name()] = true
 		}
 	}
 	n := 0
-	for tn, fields := range read {
-		str := p.Func(pkg, tn+".String")
+	var tns []string
+	for tn := range read {
+		tns = append(tns, tn)
+	}
+	sort.Strings(tns)
+	for _, tn := range tns {
+		fields := read[tn]
+		str := p.Func(pkgRel, tn+".String")
 		if str == nil {
-			r.Unresolve("C18.5", "inmem."+tn+".String", "not found")
+			r.Unresolve(rule, short+"."+tn+".String", "not found")
 			continue
 		}
 		keyed := map[string]bool{}
@@ -425,15 +471,17 @@ func checkSubjectKeyCoversSnapshotInputs(c *Ctx) {
 		sort.Strings(fs)
 		for _, f := range fs {
 			n++
-			construct := "inmem." + tn + "." + f
-			if keyed[f] {
-				r.Hold("C18.5", construct, p.FuncPos(snap), "read by the snapshot handler and part of the cache key")
-			} else {
-				r.Violate("C18.5", construct, p.FuncPos(snap), "the snapshot handler's listing depends on "+tn+"."+f+", which is not part of the subject's String(): the publisher caches and shares snapshots per topic and subject string, so a later watcher with a broader filter is served an earlier watcher's narrower snapshot and its initial listing is incomplete")
+			construct := short + "." + tn + "." + f
+			pos := p.FuncPos(where[tn])
+			switch {
+			case keyed[f]:
+				r.Hold(rule, construct, pos, "read by the snapshot handler and part of the cache key")
+			case exempt != nil && exempt(fields[f]) != "":
+				r.Hold(rule, construct, pos, exempt(fields[f]))
+			default:
+				r.Violate(rule, construct, pos, "the snapshot handler's result depends on "+tn+"."+f+", which is not part of the subject's String(): the publisher caches and shares snapshots (and routes events) per topic and subject string, so a later subscriber whose request differs only in that field is served an earlier subscriber's snapshot")
 			}
 		}
 	}
-	if n < 3 {
-		r.MissingInstance("C18.5", "<subject fields>", fmt.Sprintf("only %d subject fields read by the snapshot handler", n))
-	}
+	return n
 }
